@@ -424,7 +424,54 @@ def run_tlapm(ctx, name, spec):
             "module": spec["files"][0] + " (tlapm)"}
 
 
+def run_link(ctx, name, spec):
+    """bit-level end to end: behaviours of LinkScan.tla generated by TLC (-simulate, seeded) - every bit
+    the faulty wire delivers, every timeout-clear() - replayed into a real Keyboard and into the real frame
+    and Set 2 stages used separately"""
+    d = os.path.join(ctx.cache, "link")
+    os.makedirs(d, exist_ok=True)
+    wall = time.time()
+    meta = os.path.join(WORK, "tlc", name)
+    shutil.rmtree(meta, ignore_errors=True)
+    os.makedirs(meta, exist_ok=True)
+    cmd = ["java", "-XX:+UseParallelGC", "-Xmx4g", "-Xss1g", "-cp", TLA_JAR, "tlc2.TLC", "-workers", "1",
+           "-simulate", "num=%d" % spec["num"], "-depth", "420", "-seed", str(ctx.seed),
+           "-metadir", meta, "-cleanup", "-noGenerateSpecTE", "-nowarning", "-config",
+           os.path.join(SPEC, "MC_LinkScanSim.cfg"), os.path.join(SPEC, "MC_LinkScanSim.tla")]
+    p = subprocess.run(cmd, cwd=meta, stdout=subprocess.PIPE, stderr=subprocess.STDOUT, text=True,
+                       timeout=spec.get("timeout", 1800))
+    if "Error:" in p.stdout and "@@B" not in p.stdout:
+        raise ToolError("LinkScan simulation failed:\n%s" % p.stdout[-2000:])
+    if re.search(r"Invariant \w+ is violated", p.stdout):
+        raise ToolError("LinkScan.tla invariant violated in simulation:\n%s" % p.stdout[-3000:])
+    seen = {}
+    for line in p.stdout.splitlines():
+        m = re.match(r'^<<"@@B", (".*")>>\s*$', line)
+        if m:
+            seen.setdefault(json.loads(m.group(1)), None)
+    beh = os.path.join(d, "link.%s.s%d.ndjson" % (name, ctx.seed))
+    open(beh, "w").write("\n".join(seen) + "\n")
+    q = subprocess.run([PKV, "replay-link", beh], stdout=subprocess.PIPE, stderr=subprocess.PIPE, text=True)
+    if q.returncode != 0:
+        raise ToolError("pkv replay-link failed: %s" % q.stderr[-1500:])
+    recs, notes, total_steps, nbeh = [], [], 0, 0
+    for line in q.stdout.splitlines():
+        if line.startswith("@@M "):
+            recs.append(json.loads(line[4:]))
+        elif line.startswith("@@S "):
+            n = json.loads(line[4:])
+            notes.append(n)
+            total_steps += n["steps"]
+            nbeh += n["behaviours"]
+    os.unlink(beh)
+    return {"job": name, "verdict": "mismatch" if recs else "ok", "exit": 0, "records": recs, "notes": notes,
+            "stats": {"generated": total_steps, "distinct": nbeh, "replay_calls": total_steps},
+            "wall_s": round(time.time() - wall, 2), "module": "MC_LinkScanSim (-simulate) -> pkv replay-link"}
+
+
 def run_pkv_job(ctx, name, spec):
+    if spec["kind"] == "link":
+        return run_link(ctx, name, spec)
     if spec["kind"] == "tlapm":
         return run_tlapm(ctx, name, spec)
     if spec["kind"] == "world":
@@ -639,6 +686,8 @@ JOBS = {
     "world_q": dict(kind="world", layouts=["Uk105Key", "De105Key"], num=100, env={"x": "repo"}),
     "world_t": dict(kind="world", layouts=["Us104Key", "Uk105Key", "De105Key", "Azerty", "No105Key", "FiSe105Key",
                                            "Colemak", "Dvorak104Key", "DVP104Key"], num=1500, env={"x": "repo"}, timeout=3600),
+    "link_q": dict(kind="link", num=150, env={"x": "repo"}),
+    "link_t": dict(kind="link", num=3000, env={"x": "repo"}, timeout=3600),
     "conf_iso_kb2_q": dict(kind="tlc", module="Conf_Isolation", cfg="Conf_Isolation.cfg", workers=1, cont=False,
                            env={"ISO": "art:iso_kb2_q", "COMP": "kb2"}),
     "conf_iso_kb1_q": dict(kind="tlc", module="Conf_Isolation", cfg="Conf_Isolation.cfg", workers=1, cont=False,
@@ -653,6 +702,10 @@ JOBS = {
                                env={"TABLE": "model:table", "SOURCE": "model"}, spec_only=True),
     "mc_link": dict(kind="tlc", module="Link", cfg="Link.cfg", cont=False),
     "mc_link_hazard": dict(kind="tlc", module="Link", cfg="Link_hazard.cfg", cont=False, expect_violation="NoWrongByte"),
+    # the wire + frame stage + Set 2 stage + the host's held-key set under line faults (spec side)
+    "mc_linkscan": dict(kind="tlc", module="LinkScan", cfg="LinkScan.cfg", cont=False),
+    "mc_linkscan_deep": dict(kind="tlc", module="LinkScan", cfg="LinkScan_deep.cfg", cont=False, timeout=1800),
+    "mc_linkscan_hazard": dict(kind="tlc", module="LinkScan", cfg="LinkScan_hazard.cfg", cont=False, expect_violation="NoPhantomKey"),
     "conf_eventlayouts": dict(kind="tlc", module="Conf_EventLayouts", cfg="Conf_EventLayouts.cfg", workers=8, heap="8g",
                               env={"EVT": "art:t_eventlayouts", "TABLE": "art:t_layouts"}),
     # the second public constructor (Default) of each stage: same conformance as new()
@@ -679,24 +732,24 @@ JOBS = {
 # "impl" jobs bind it to the code. impl_count: how many implementation transitions / records /
 # cells TLC validated in those jobs (computed from the artefacts).
 PROPS = {
-    "C01": dict(quick=["mc_set2", "conf_set2", "conf_kb2_bytes", "replay_set2_q", "tracespec_kb2", "conf_set2_default"],
-                thorough=["mc_set2", "conf_set2", "conf_kb2_bytes", "replay_set2_t", "tracespec_kb2_long", "conf_set2_default"], graphs=["g_set2", "g_kb2_bytes"]),
+    "C01": dict(quick=["mc_set2", "conf_set2", "conf_kb2_bytes", "replay_set2_q", "tracespec_kb2", "conf_set2_default", "link_q"],
+                thorough=["mc_set2", "conf_set2", "conf_kb2_bytes", "replay_set2_t", "tracespec_kb2_long", "conf_set2_default", "link_t"], graphs=["g_set2", "g_kb2_bytes"]),
     "C02": dict(quick=["mc_set1", "conf_set1", "conf_kb1_bytes", "replay_set1_q", "tracespec_kb1", "conf_set1_default"],
                 thorough=["mc_set1", "conf_set1", "conf_kb1_bytes", "replay_set1_t", "tracespec_kb1_long", "conf_set1_default"], graphs=["g_set1", "g_kb1_bytes"]),
     "C05": dict(quick=["mc_frame", "conf_words", "replay_words"], thorough=["mc_frame_full", "conf_words", "replay_words"],
                 tables=["t_words"]),
-    "C06": dict(quick=["mc_frame", "mc_link", "mc_link_hazard", "conf_frame", "replay_frame_q", "conf_frame_default"],
-                thorough=["mc_frame_full", "mc_link", "mc_link_hazard", "conf_frame", "replay_frame_t", "conf_frame_default"],
+    "C06": dict(quick=["mc_frame", "mc_link", "mc_link_hazard", "conf_frame", "replay_frame_q", "conf_frame_default", "link_q"],
+                thorough=["mc_frame_full", "mc_link", "mc_link_hazard", "conf_frame", "replay_frame_t", "conf_frame_default", "link_t"],
                 graphs=["g_frame"]),
-    "C07": dict(quick=["mc_set1", "mc_set2", "proof_scan", "props_scan", "selfreplay_set1_q", "selfreplay_set2_q"],
-                thorough=["mc_set1", "mc_set2", "proof_scan", "props_scan", "selfreplay_set1_t", "selfreplay_set2_t"], graphs=["g_set1", "g_set2"]),
+    "C07": dict(quick=["mc_set1", "mc_set2", "mc_linkscan", "mc_linkscan_hazard", "proof_scan", "props_scan", "selfreplay_set1_q", "selfreplay_set2_q"],
+                thorough=["mc_set1", "mc_set2", "mc_linkscan", "mc_linkscan_deep", "mc_linkscan_hazard", "proof_scan", "props_scan", "selfreplay_set1_t", "selfreplay_set2_t"], graphs=["g_set1", "g_set2"]),
     "C13": dict(quick=["props_scan", "conf_xlate", "mc_world", "world_q"],
                 thorough=["props_scan", "conf_xlate", "mc_world_full", "world_t"],
                 graphs=["g_set1", "g_set2"]),
     "C19": dict(quick=["mc_set1", "mc_set2", "props_scan"], graphs=["g_set1", "g_set2"]),
     "C18": dict(quick=["mc_keyboard_set2", "proof_keyboard", "conf_kb2_mixedq", "conf_kb1_mixedq", "conf_kb2_events_wiring", "trace_kb2", "trace_kb1",
-                       "conf_iso_kb2_q", "conf_iso_kb1_q"],
-                thorough=["mc_keyboard_set2", "mc_keyboard_set1", "mc_keyboard_set2_full", "proof_keyboard", "conf_kb2_bits", "conf_kb1_bits", "conf_kb2_events_wiring",
+                       "conf_iso_kb2_q", "conf_iso_kb1_q", "link_q"],
+                thorough=["link_t", "mc_keyboard_set2", "mc_keyboard_set1", "mc_keyboard_set2_full", "proof_keyboard", "conf_kb2_bits", "conf_kb1_bits", "conf_kb2_events_wiring",
                           "conf_kb2_mixedq", "conf_kb1_mixedq", "conf_kb2_mixed", "trace_kb2_long", "trace_kb1_long",
                           "conf_iso_kb2_t", "conf_iso_kb1_t"],
                 graphs=["g_kb2_mixedq", "g_kb1_mixedq"],
@@ -755,6 +808,10 @@ def canon_key(rec):
         return "%s comp=%s bits=%s bytes=%s ev=%s what=%s" % (
             k, rec.get("comp"), rec.get("bits"), rec.get("bytes"), json.dumps(rec.get("ev"), separators=(",", ":")),
             json.dumps(rec.get("changed", rec.get("ops")), separators=(",", ":")))
+    if k in ("link-wiring", "link-stage", "link-held"):
+        return "%s input=%s after=%s detail=%s" % (k, json.dumps(rec.get("input"), separators=(",", ":")),
+                                                   hashlib.sha256(json.dumps(rec.get("inputs_so_far")).encode()).hexdigest()[:10],
+                                                   json.dumps(rec.get("detail"), separators=(",", ":"), sort_keys=True)[:200])
     if k in ("world-set-dependence", "world-host"):
         return "%s layout=%s s2=%s detail=%s" % (k, rec.get("layout"), rec.get("s2"),
                                                    hashlib.sha256(json.dumps(rec.get("detail"), sort_keys=True).encode()).hexdigest()[:10])
@@ -863,6 +920,9 @@ def write_replay(ctx, pid, n, rec, jobname):
                 doc["inputs"].append(inp)
         except Exception as e:  # replay stays usable as a record even without inputs
             doc["note"] = "could not expand access sequence: %s" % e
+    elif str(rec.get("kind", "")).startswith("link-"):
+        doc["component"] = "kb2"
+        doc["inputs"] = rec["inputs_so_far"]
     elif "line" in rec and str(JOBS.get(jobname, {}).get("env", {}).get("TRACE", "")).startswith("art:"):
         # a recorded call: the inputs of its run, from the last reset up to and including the line
         try:
